@@ -36,10 +36,14 @@ HF(name) == CASE name = "sha1"      -> [name |-> name, size |-> 20, block |-> 64
               [] name = "sha256"    -> [name |-> name, size |-> 32, block |-> 64]
               [] name = "sha512"    -> [name |-> name, size |-> 64, block |-> 128]
               [] name = "ripemd160" -> [name |-> name, size |-> 20, block |-> 64]
+              [] name = "toy"       -> [name |-> name, size |-> 1, block |-> 4]
+\* a one-byte mixing function for the toy-curve models (no security claimed: only that it is a function of all bytes)
+ToyHash(m) == <<FoldLeft(LAMBDA acc, x : (acc * 7 + x + 3) % 251, Len(m) % 251, m)>>
 H(hf, m) == CASE hf.name = "sha1"      -> SHA1(m)
               [] hf.name = "sha256"    -> SHA256(m)
               [] hf.name = "sha512"    -> SHA512(m)
               [] hf.name = "ripemd160" -> RIPEMD160(m)
+              [] hf.name = "toy"       -> ToyHash(m)
 
 \* RFC 2104
 HMAC(hf, key, m) ==
